@@ -99,6 +99,13 @@ class ModelTrainer:
     ):
         """Initialise the class with configs and set the seed and device as class attributes."""
         self.config = verify_training_cfg(config)
+        # The wandb API key is only needed to log in. Keep it out of the config, which is
+        # saved to the config files and stored in the checkpoints.
+        self._wandb_api_key = OmegaConf.select(
+            self.config, "trainer_config.wandb.api_key", default=None
+        )
+        if self._wandb_api_key:
+            self.config.trainer_config.wandb.api_key = ""
         self.data_pipeline_fw = self.config.data_config.data_pipeline_fw
         self.use_existing_chunks = self.config.data_config.use_existing_chunks
         self.user_instances_only = OmegaConf.select(
@@ -722,7 +729,7 @@ class ModelTrainer:
         )
 
     def _set_wandb(self):
-        wandb.login(key=self.config.trainer_config.wandb.api_key)
+        wandb.login(key=self._wandb_api_key)
 
     def _initialize_model(
         self,
